@@ -19,6 +19,155 @@ def lsb_first(spec_bits):
     return [("in", b, j) for (b, j) in reversed(spec_bits)]
 
 
+def _const_variants(F, e, depth=0):
+    """the variant names of a const array of enum variants, reached through `&`, a slice of it, or a function returning it"""
+    e = H.strip(e)
+    if depth > 4:
+        return None
+    if e.get("k") == "ref":
+        return _const_variants(F, e["e"], depth + 1)
+    if e.get("k") == "mcall" and e["m"] in ("iter", "as_slice", "into_iter", "copied", "cloned") and not e.get("args"):
+        return _const_variants(F, e["recv"], depth + 1)
+    if e.get("k") == "path" and e["res"].get("r") in ("const", "static"):
+        c = F.consts.get(e["res"]["path"])
+        if c is None or not c.get("hir"):
+            return None
+        return _const_variants(F, H.body_of(c) if "hir" in c else c, depth + 1)
+    if e.get("k") == "array":
+        out = [H.ctor_of(H.strip(x)) for x in e["es"]]
+        return [H.last(v) for v in out] if all(out) else None
+    if e.get("k") == "call" and e.get("callee") in F.fns and not e.get("args"):
+        b = H.body_of(F.fn(e["callee"]))
+        if b.get("k") == "block" and not b.get("stmts") and b.get("expr") is not None:
+            b = b["expr"]
+        return _const_variants(F, b, depth + 1)
+    return None
+
+
+def _byte_table(F, fu):
+    """{byte: variant name} over all 256 byte values as From<u8> computes it: a match on the byte with literal arms, or a
+    lookup of the byte in a const array of variants with a default for what is past its end; None when it is neither"""
+    arg = fu["hir"]["params"][0].get("id") if fu["hir"]["params"] else None
+    ms = [m for m in H.walk(H.body_of(fu)) if m.get("k") == "match" and not H.is_try(m)]
+    inner = {id(x) for m in ms for a in m["arms"] for x in H.walk(a["body"]) if x.get("k") == "match"}
+    ms = [m for m in ms if id(m) not in inner]
+    if len(ms) != 1:
+        return None
+    m = ms[0]
+    sc = H.strip(m["scrut"])
+
+    def is_arg(e):
+        e = H.strip(e)
+        while e.get("k") == "cast" or (e.get("k") in ("call", "mcall") and H.last(e.get("callee") or "") in ("from", "into")
+                                       and len(([e["recv"]] if e.get("k") == "mcall" else []) + e.get("args", [])) == 1):
+            e = H.strip(e["e"] if e.get("k") == "cast" else (([e["recv"]] if e.get("k") == "mcall" else []) + e.get("args", []))[0])
+        return H.is_local(e) and H.local_id(e) == arg
+    if is_arg(sc) and sc.get("k") == "path":
+        table, default = {}, None
+        for a in m["arms"]:
+            v = H.ctor_of(H.strip(a["body"]))
+            if v is None or a.get("guard") is not None:
+                return None
+            if a["pat"].get("k") == "plit":
+                table.setdefault(a["pat"]["lit"]["v"], H.last(v))
+            elif a["pat"].get("k") == "wild":
+                default = H.last(v)
+            else:
+                return None
+        return {b: table.get(b, default) for b in range(256)}
+    if sc.get("k") == "mcall" and sc["m"] == "get" and len(sc.get("args", [])) == 1 and is_arg(sc["args"][0]):
+        arr = _const_variants(F, sc["recv"])
+        if arr is None:
+            return None
+        some, none = None, None
+        for a in m["arms"]:
+            pt = a["pat"]
+            if a.get("guard") is not None:
+                return None
+            if pt.get("k") == "ts" and H.last(pt["res"].get("path") or "") == "Some" and len(pt.get("pats", [])) == 1 and pt["pats"][0].get("k") == "bind":
+                val = a["body"]
+                while val.get("k") == "block" and val.get("expr") is not None:
+                    # (statements before the value may assert, not decide)
+                    if any(x.get("k") in ("ret", "assign", "assignop") for st in val.get("stmts", []) for x in H.walk(st)):
+                        return None
+                    val = val["expr"]
+                val = H.strip(val)
+                if val.get("k") == "un" and val.get("op") == "*":
+                    val = H.strip(val["e"])
+                if val.get("k") == "mcall" and val["m"] == "clone" and not val.get("args"):
+                    val = H.strip(val["recv"])
+                if H.is_local(val) and H.local_id(val) == pt["pats"][0]["id"]:
+                    some = True
+            elif H.last((pt.get("res") or {}).get("path") or "") == "None" or pt.get("k") == "wild":
+                v = H.ctor_of(H.strip(a["body"]))
+                none = H.last(v) if v else None
+        if not some or none is None:
+            return None
+        return {b: (arr[b] if b < len(arr) else none) for b in range(256)}
+    return None
+
+
+def _map_population(F, pm, conv, discr):
+    """the variants v for which the initialiser's loop inserts (v.to_string(), v): → (list | None, reason)"""
+    b = H.unlet(H.body_of(pm))
+    loops = [m for m in H.walk(b) if m.get("k") == "match" and H.strip(m["scrut"]).get("k") in ("call", "mcall")
+             and H.last(H.strip(m["scrut"]).get("callee") or "") == "into_iter"]
+    if len(loops) != 1:
+        return None, "found %d loops" % len(loops)
+    sc = H.strip(loops[0]["scrut"])
+    it = H.strip((([sc["recv"]] if sc.get("k") == "mcall" else []) + sc.get("args", []))[0])
+    # the loop variable and the inserts under it
+    var = None
+    for x in H.walk(loops[0]):
+        if x.get("k") == "match":
+            for a in x["arms"]:
+                pt = a["pat"]
+                if pt.get("k") in ("ts", "struct") and H.last(pt["res"].get("path") or "") == "Some":
+                    for q in H.walk(pt):
+                        if q.get("k") == "bind":
+                            var = q["id"]
+    ins = [c for c in H.walk(loops[0]) if c.get("k") == "mcall" and c["m"] == "insert" and len(c.get("args", [])) == 2]
+    if var is None or len(ins) != 1:
+        return None, "loop of unknown shape"
+    byte_loop = False
+    if it.get("k") == "struct" and H.last(it["res"].get("path") or "") == "Range":
+        fl = {fd["name"]: H.strip(fd["e"]) for fd in it["fields"]}
+        st, en = fl.get("start"), fl.get("end")
+        end_v = H.ctor_of(H.strip(en["e"])) if en is not None and en.get("k") == "cast" else None
+        if not (st is not None and st.get("k") == "lit" and st.get("v") == 0 and end_v and H.last(end_v) in discr):
+            return None, "range of unknown bounds"
+        if conv is None:
+            return None, "bytes are converted by a From<u8> that is not the discriminant table"
+        dom = [conv[i] for i in range(discr[H.last(end_v)])]
+        byte_loop = True
+    else:
+        dom = _const_variants(F, it)
+        if dom is None:
+            return None, "iterates over something that is not a range of codes or a constant table of variants"
+
+    def is_var(e):
+        if byte_loop:
+            conv_seen = any(x.get("k") in ("call", "mcall") and H.last(x.get("callee") or "") in ("from", "into") and "PacketPropType" in (x.get("ty") or "")
+                            for x in H.walk(e))
+            e = H.strip(e)
+            while e.get("k") in ("call", "mcall") and H.last(e.get("callee") or "") in ("from", "into"):
+                e = H.strip((([e["recv"]] if e.get("k") == "mcall" else []) + e.get("args", []))[0])
+            return conv_seen and H.is_local(e) and H.local_id(e) == var
+        e = H.strip(e)
+        if e.get("k") == "un" and e.get("op") == "*":
+            e = H.strip(e["e"])
+        if e.get("k") == "mcall" and e["m"] == "clone" and not e.get("args"):
+            e = H.strip(e["recv"])
+        return H.is_local(e) and H.local_id(e) == var
+    k, v = ins[0]["args"][0], ins[0]["args"][1]
+    while k.get("k") == "ref" or (k.get("k") == "block" and not k.get("stmts") and k.get("expr") is not None):
+        k = k["e"] if k.get("k") == "ref" else k["expr"]
+    if not (k.get("k") == "mcall" and k["m"] == "to_string" and is_var(k["recv"]) and is_var(v)):
+        return None, "the insert is not (v.to_string(), v)"
+    return dom, ""
+
+
+
 def run(F, R, tier):
     R.explanation = EXPL
     R.assumptions += ["A5: tables/rfc_layouts.json is a correct transcription of the cited layouts",
@@ -255,17 +404,9 @@ def run(F, R, tier):
     discr = dict(vs)
     fu = F.fn("<code::prop::PacketPropType as std::convert::From<u8>>::from")
     if R.anchor("From<u8> for PacketPropType", fu):
-        table, default = {}, None
-        for m in H.walk(H.body_of(fu)):
-            if m.get("k") == "match" and not H.is_try(m):
-                for a in m["arms"]:
-                    v = H.ctor_of(H.strip(a["body"]))
-                    if a["pat"].get("k") == "plit":
-                        table[a["pat"]["lit"]["v"]] = H.last(v)
-                    elif a["pat"].get("k") == "wild":
-                        default = H.last(v)
-        bad = [(b, table.get(b, default)) for b in range(256)
-               if table.get(b, default) != ([n for n, d in vs if d == b and n != "Invalid"] or ["Invalid"])[0]]
+        conv = _byte_table(F, fu)
+        bad = [(b, (conv or {}).get(b)) for b in range(256)
+               if (conv or {}).get(b) != ([n for n, d in vs if d == b and n != "Invalid"] or ["Invalid"])[0]]
         R.ob("prop-from-u8", "all 256 byte values", not bad, "mismatches %s" % bad[:5])
     for n, d in vs:
         if n == "Invalid":
@@ -275,8 +416,11 @@ def run(F, R, tier):
     pm = lazy_init(F, "parser::rules::PACKET_PROP_MAP")
     if R.anchor("PACKET_PROP_MAP initialiser", pm):
         txt = H.render(H.body_of(pm))
-        ok = "PacketPropType::Invalid as u8" in txt and "map.insert(prop_type.to_string(), prop_type)" in txt and "p.into()" in txt
-        R.ob("prop-map", "PACKET_PROP_MAP = Display name of every variant below Invalid", ok, txt[:200], F.loc(pm))
+        got, why = _map_population(F, pm, conv if not bad else None, discr)
+        want = sorted(n for n, d in vs if n != "Invalid")
+        ok = got is not None and sorted(got) == want
+        R.ob("prop-map", "PACKET_PROP_MAP = Display name of every variant below Invalid", ok,
+             "the loop inserts (v.to_string(), v) for v in %s%s" % ("%d variants" % len(got) if got is not None else None, "; " + why if why else ""), F.loc(pm))
         extra = re.findall(r'map\.insert\("([a-z]+)"\.to_string\(\), PacketPropType::([A-Za-z]+)\)', txt)
         R.ob("prop-map", "aliases", extra == [("nsec", "USec")], "aliases: %s" % extra, F.loc(pm))
 
